@@ -86,6 +86,21 @@ func newHLLItem(init uint8) (*hllCacheItem, error) {
 	}
 }
 
+// checkDecodedHLLPlus makes sure the decoded sketch is usable. The key shares the
+// KV key space, so the bytes may be any string a client has stored there (SET,
+// SETRANGE, APPEND ...): gob accepts some of them and the library then panics
+// on the inconsistent sketch when it is counted or added to (PFCOUNT on the
+// connection, PFADD in the apply loop of every replica).
+func checkDecodedHLLPlus(hllp *hll.HyperLogLogPlus) (err error) {
+	defer func() {
+		if r := recover(); r != nil {
+			err = errInvalidHLLData
+		}
+	}()
+	hllp.Count()
+	return nil
+}
+
 func newHLLItemFromDBBytes(hllType uint8, fkv []byte) (*hllCacheItem, bool, error) {
 	pos := 1
 	recompute := true
@@ -98,6 +113,9 @@ func newHLLItemFromDBBytes(hllType uint8, fkv []byte) (*hllCacheItem, bool, erro
 		hllp, _ := hll.NewPlus(hllPrecision)
 		err := hllp.GobDecode(fkv[pos+8:])
 		if err != nil {
+			return nil, recompute, err
+		}
+		if err := checkDecodedHLLPlus(hllp); err != nil {
 			return nil, recompute, err
 		}
 
